@@ -122,15 +122,17 @@ func (s *socket) SendMsg(m *protocol.Message) error {
 }
 
 func (s *socket) RecvMsg() (*protocol.Message, error) {
+	timeQ := nilQ
+	s.Lock()
+	if s.recvExpire > 0 {
+		timeQ = time.After(s.recvExpire)
+	}
+	s.Unlock()
 	for {
 		s.Lock()
-		timeQ := nilQ
 		recvQ := s.recvQ
 		sizeQ := s.sizeQ
 		closeQ := s.closeQ
-		if s.recvExpire > 0 {
-			timeQ = time.After(s.recvExpire)
-		}
 		s.Unlock()
 		select {
 		case <-closeQ:
